@@ -75,6 +75,11 @@ class Job:
                               "handle_abort=0:malloc_context_size=8" + s.get("asan_extra", "")
         env["UBSAN_OPTIONS"] = "print_stacktrace=1:halt_on_error=1"
         env["TSAN_OPTIONS"] = "halt_on_error=1:second_deadlock_stack=1"
+        try:
+            # dictionary of the tree's own string literals for the generators
+            env["VF_LITERALS"] = B.literals_file()
+        except Exception:
+            pass
         for k, v in s.get("env", {}).items():
             env[k] = v
         binary = self.binaries[s.get("binary", "fuzz" if self.kind == "fuzz" else "main")]
